@@ -149,8 +149,7 @@ class ControlModels(CommonModels):
         i = ex.fresh_int(body_path, 'loop_i')
         body_path.assume(z3.And(i >= 0, i < z3.Length(seq.t)))
         elem = TCmd.wrap(z3.simplify(seq.t[i]))
-        # instance of the Inv clause 'queued command bytes are ASCII' (established by queue_command)
-        body_path.assume(z3.InRe(elem.items[1].t, z3.Star(z3.Range(mk_str('\x00'), mk_str('\x7f')))))
+        # (no assumption on the command bytes: a command submitted as bytes need not be ASCII)
         before_logs = {k: body_path.heap.get(('g', k), ()) for k in ('fired', 'writes', 'percb')}
         snapshot = dict(body_path.heap)
         # user errbacks run inside this loop and may submit commands (A11): the state they find must be the 'lost' state
